@@ -1314,6 +1314,9 @@ func (a *align) Mask(refseq string, start, length int, maskreplace string, nogap
 		return
 	}
 
+	// noref has no effect without a reference sequence
+	noref = noref && refseq != ""
+
 	// We take the reference sequence from the alignment
 	if refseq != "" && noref {
 		if refSequence, ok = a.GetSequenceByName(refseq); !ok {
